@@ -311,15 +311,15 @@ PROPS = {
         assumed=[
             "symbolize_bitvec denotes the world",
             "PJ: the bit deletion in marginalize (a string comprehension) is a function of world, signature and marginalization (which bits it deletes: bounded, module c18)",
-            "CTOR: PreOCF.init_custom stores the ranks and a non-empty signature unchanged in the new object (three straight-line constructor hops; bounded, module c18)",
-            "abstract rank_world of the base class returns RKf(world), or raises (compute_conditionalization)",
+            "abstract rank_world of the base class returns RKf(world), or raises (compute_conditionalization); the custom ranking's rank_world is proved to return the stored rank",
         ],
         lemmas=["SeenRank.step", "MargAtt.step", "MargLB.step", "MargAny.step"],
         explanation="Engine P proves formula_rank (least rank of the models, None if none), conditional_acceptance, is_ocf, "
         "world_satisfies_conditionalization, the conditionalisations (filter_worlds_by_conditionalization, compute_conditionalization, "
         "conditionalize_existing_ranks: exactly the worlds satisfying the formula, with their ranks), both directions of the TPO "
-        "conversion (tpo2ranks, ranks2tpo) and the structure of marginalize (every projected world gets the least rank of its ranked "
-        "extensions; the new signature is the subsequence of the remaining atoms) from the real source. Which bit positions marginalize "
+        "conversion (tpo2ranks, ranks2tpo), the structure of marginalize (every projected world gets the least rank of its ranked "
+        "extensions; the new signature is the subsequence of the remaining atoms) and the constructor chain it ends in (init_custom -> "
+        "CustomPreOCF.__init__ -> PreOCF.__init__ store ranks and signature) from the real source. Which bit positions marginalize "
         "deletes (string manipulation, abstracted as a function PJ), and all operations end to end on all small rankings, are "
         "compared with the definitions by the bounded module.",
     ),
@@ -333,13 +333,14 @@ PROPS = {
             "L19: gamma-_k - gamma+_k > mv_k - mf_k for the minima of the compilation entries iff the revised ranking accepts conditional k (arithmetic of minima)",
             "the three compilations list, per conditional, exactly the verifying / falsifying worlds with their rank and the other conditionals they verify / falsify (bounded: agreement of the compilations with a brute force)",
             "MASK: a literal mask returned by _extract_cond_masks decides verification / falsification of its conditional from two bits of a world (bounded: module c19 compares the mask path with the solver path)",
-            "CRevisionModel.__init__ establishes the representation invariant for the empty model; to_compilation reads the caches faithfully (bounded)",
+            "BITS: the dictionary {w: [int(b) for b in w] ...} built by CRevisionModel.__init__ has the worlds as keys and maps each to its bits (string manipulation; bounded: module c19)",
+            "to_compilation reads the caches faithfully (bounded)",
         ],
         explanation="Engine P proves the constraint-system side of c-revision from the real source: symbolize_minima_expression (every "
         "compilation entry becomes rank + sum of gamma- over rejected + sum of gamma+ over accepted, gamma_plus_zero honoured), encoding "
         "(minima, the skip rule, gamma- - gamma+ > mv - mf) and translate_to_csp (the pysmt constraint list holds under an assignment "
         "exactly when the revision's constraint system does), and the incremental model as a data structure against an abstract view: "
-        "add_conditional and remove_conditional preserve the representation invariant WF (for every world, world_acc / world_rej are exactly "
+        "__init__ establishes and add_conditional and remove_conditional preserve the representation invariant WF (for every world, world_acc / world_rej are exactly "
         "the indices of the current conditionals the world verifies / falsifies), so the classification after any sequence of additions "
         "and removals is that of the current conditionals. The world-level compilations, the z3 search (Pareto) and to_compilation of the "
         "incremental model are decided by the bounded module (acceptance of the revised ranking over explicit worlds, existence search, "
